@@ -197,7 +197,7 @@ Definition validate_record (s : list field) (r : record) : bool :=
   && forallb (fun f => negb (freq f) || negb (is_none (rget r (fname f)))) s
   && forallb (fun f => value_fits_c (ftype f) (rget r (fname f))) s.
 
-(* ---- what the declared type stores for an admitted value ----
+(* ---- what the declared type stores for a value that passed the admission test ----
    rnd32 is IEEE binary32 round-to-nearest-even on finite rationals (external arithmetic). *)
 Definition canon (rnd32 : Q -> num) (t : ptype) (v : pyval) : pyval :=
   match t, v with
